@@ -229,7 +229,7 @@ func gen(r *common.Rng, tier string, w *bufio.Writer) {
 	if tier == "thorough" {
 		n = 2600
 	}
-	kinds := []string{"plain", "plain", "border", "cold", "ffc", "ffcpair", "resetpair", "dyn", "dyn"}
+	kinds := []string{"plain", "plain", "border", "cold", "ffc", "ffcpair", "resetpair", "dyn", "dyn", "ffcobj", "dynsat"}
 	for id := 0; id < n; id++ {
 		kind := kinds[r.Intn(len(kinds))]
 		c := randCfg(r, id == 7)
@@ -251,8 +251,101 @@ func gen(r *common.Rng, tier string, w *bufio.Writer) {
 				c.thresh = 2900
 			}
 		}
+		if kind == "ffcobj" {
+			c.dyn, c.one = 0, r.Pick(0, 0, 1)
+			if c.thresh == 0 {
+				c.thresh = 1000
+			}
+			fmt.Fprintln(w, c.header(id, kind))
+			genFFCObject(r, c, w)
+			continue
+		}
+		if kind == "dynsat" {
+			c.dyn, c.preview = 1, r.Pick(0, 1, 2)
+			c.tmin, c.tmax = r.Pick(0, 3000), r.Pick(0, 31000)
+			fmt.Fprintln(w, c.header(id, kind))
+			genSaturated(r, c, w)
+			continue
+		}
 		fmt.Fprintln(w, c.header(id, kind))
 		genCase(r, c, kind, w)
+	}
+}
+
+// genFFCObject: two histories that differ only BEFORE a short FFC period — a warm object is in view in A, not in B —
+// and are identical from the period on, where the object (re)appears at the same place.  Verdicts must agree from the period on.
+func genFFCObject(r *common.Rng, c dcfg, w *bufio.Writer) {
+	base := c.thresh + r.Pick(50, 300, 2000)
+	amp := c.delta + r.Pick(1, 30, 400)
+	y, x := c.h/2, c.w/2
+	obj := func(f frame) {
+		for k := 0; k < c.count+1; k++ {
+			xx := x + k
+			if xx >= c.w-c.edge {
+				xx = x - k
+			}
+			if xx >= 0 && xx < c.w {
+				f[y][xx] += amp
+			}
+		}
+	}
+	ton := int64(r.Range(20, 200)) * sec
+	lastFFC := int64(0)
+	pre := r.Range(2, c.gap+4)
+	period := r.Pick(1, 1, 2, 3)
+	emit := func(fa, fb frame, lf int64) {
+		if fb != nil {
+			fmt.Fprintf(w, "e %d %d %s\n", ton, lf, fb.hex())
+		}
+		fmt.Fprintf(w, "d %d %d %s\n", ton, lf, fa.hex())
+		ton += sec / 9
+	}
+	for i := 0; i < pre; i++ {
+		fa, fb := newFrame(c, base), newFrame(c, base)
+		if r.Chance(80) {
+			obj(fa)
+		}
+		if ton-lastFFC < 10*sec {
+			ton = lastFFC + 11*sec
+		}
+		emit(fa, fb, lastFFC)
+	}
+	ffc := ton
+	for i := 0; i < period; i++ {
+		f := newFrame(c, base)
+		if r.Chance(50) {
+			obj(f)
+		}
+		emit(f, nil, ffc)
+	}
+	ton = ffc + 10*sec + int64(r.Pick(0, 1, int(sec)))
+	fmt.Fprintln(w, "x C09 1")
+	for i := 0; i < r.Range(3, 8); i++ {
+		f := newFrame(c, base)
+		if i < 3 || r.Chance(50) {
+			obj(f)
+		}
+		emit(f, nil, ffc)
+	}
+}
+
+// genSaturated: dynamic threshold with pixels saturated at 65535 for a while, then cooling (background must follow)
+func genSaturated(r *common.Rng, c dcfg, w *bufio.Writer) {
+	ton := int64(r.Range(20, 200)) * sec
+	hot := r.Range(11, 16)
+	for i := 0; i < hot+r.Range(3, 8); i++ {
+		f := newFrame(c, 30000)
+		for y := 0; y < c.h/2+1; y++ {
+			for x := range f[y] {
+				if i < hot {
+					f[y][x] = 65535
+				} else {
+					f[y][x] = 29500 + r.Pick(0, 5)
+				}
+			}
+		}
+		fmt.Fprintf(w, "d %d %d %s\n", ton, 0, f.hex())
+		ton += sec / 9
 	}
 }
 
@@ -268,7 +361,7 @@ func genCase(r *common.Rng, c dcfg, kind string, w *bufio.Writer) {
 		base = c.thresh - r.Pick(0, 1, c.delta/2, c.delta, c.delta+1, 300)
 	}
 	if c.dyn == 1 {
-		base = r.Pick(2000, 2999, 3000, 3500, 4000, 4001, 5000)
+		base = r.Pick(2000, 2999, 3000, 3500, 4000, 4001, 5000, 65535, 65000)
 	}
 	if base < 1 {
 		base = 1
@@ -333,6 +426,9 @@ func genCase(r *common.Rng, c dcfg, kind string, w *bufio.Writer) {
 		ton += sec / 9 * int64(r.Pick(1, 1, 1, 9, 30))
 		if (kind == "ffc" || kind == "ffcpair" || (kind == "dyn" && r.Chance(30))) && ffcLeft == 0 && r.Chance(12) || (kind == "ffcpair" && i == pivotAt) {
 			ffcLeft = r.Range(1, c.gap+3)
+			if kind == "ffcpair" && r.Chance(45) {
+				ffcLeft = r.Pick(1, 1, 2) // one- and two-frame periods at either parity of the first-diff flag
+			}
 		}
 		lf := lastFFC
 		if ffcLeft > 0 {
@@ -386,6 +482,9 @@ func genCase(r *common.Rng, c dcfg, kind string, w *bufio.Writer) {
 		}
 		fa := scene.clone()
 		on := r.Chance(45)
+		if kind == "ffcpair" && pivotDone && i <= pivotAt+6 {
+			on = r.Chance(85) // something moves right after the period: the first real comparisons matter
+		}
 		blobSeed := *r
 		blob(fa, on)
 		if r.Chance(10) { // persistent change of the scene
